@@ -29,6 +29,8 @@ type c14Plan struct {
 	Ending      string `json:"ending"`        // success | sse | upgrade | target-reset-before-head | target-reset-mid-body | client-abort-upload
 	Status      int    `json:"status,omitempty"`  // the target's final status (0 = 200)
 	Interim     int    `json:"interim,omitempty"` // an interim response the target sends first (100, 102, 103; 0 = none)
+	Prior       int    `json:"prior,omitempty"`   // 1 = an earlier deploy with other buffering options and limits; 2 = that plus a rollout deploy in between
+	Then        string `json:"then,omitempty"`    // after the deploy under test: "restart" (the request meets the restored proxy) | "rollout" (rollout targets deployed now, the request carries the cookie)
 }
 
 func c14Gen(t *rapid.T) c14Plan {
@@ -74,6 +76,10 @@ func c14Gen(t *rapid.T) c14Plan {
 	if rapid.IntRange(0, 2).Draw(t, "status?") == 0 {
 		p.Status = rapid.SampledFrom([]int{201, 203, 404, 422, 500, 503}).Draw(t, "status")
 	}
+	p.Prior = rapid.SampledFrom([]int{0, 0, 0, 1, 2}).Draw(t, "prior")
+	if p.Ending != "upgrade" {
+		p.Then = rapid.SampledFrom([]string{"", "", "", "restart", "rollout"}).Draw(t, "then")
+	}
 	if rapid.IntRange(0, 3).Draw(t, "interim?") == 0 {
 		p.Interim = rapid.SampledFrom([]int{100, 102, 103}).Draw(t, "interim")
 	}
@@ -94,11 +100,55 @@ func c14Run(t *testing.T, p c14Plan) (res vfResult) {
 		}
 		opts := ServiceOptions{TLSRedirect: true}
 		opts.Normalize()
+		if p.Prior > 0 {
+			w.target("old0:80")
+			old := to
+			old.BufferRequests, old.BufferResponses = !to.BufferRequests, !to.BufferResponses
+			old.MaxMemoryBufferSize, old.MaxRequestBodySize, old.MaxResponseBodySize = 7, 3, 3
+			if err := vfDeploy(r, "svc", []string{"old0:80"}, opts, old, 5*time.Second, time.Second); err != nil {
+				res.failf("setup-failed", "prior deploy: %v", err)
+				return
+			}
+			if p.Prior == 2 {
+				w.target("oldr0:80")
+				if err := vfRolloutDeploy(r, "svc", []string{"oldr0:80"}, 5*time.Second, time.Second); err != nil {
+					res.failf("setup-failed", "prior rollout deploy: %v", err)
+					return
+				}
+			}
+			res.label(fmt.Sprintf("redeploy-with-other-options:%d", p.Prior))
+		}
 		if err := vfDeploy(r, "svc", []string{tname}, opts, to, 5*time.Second, time.Second); err != nil {
 			res.failf("setup-failed", "deploy: %v", err)
 			return
 		}
 		synctest.Wait()
+		cookie := ""
+		switch p.Then {
+		case "restart":
+			nr := vfNewRouter(vfPathOf(r))
+			if err := nr.RestoreLastSavedState(); err != nil {
+				res.failf("restore-failed", "%v", err)
+				return
+			}
+			vfRemove(r, "svc")
+			w.adopt(nr)
+			r = nr
+			synctest.Wait()
+			res.label("then:restart")
+		case "rollout":
+			if err := vfRolloutDeploy(r, "svc", []string{tname}, 5*time.Second, time.Second); err != nil {
+				res.failf("setup-failed", "rollout deploy: %v", err)
+				return
+			}
+			if err := vfRolloutSet(r, "svc", 100, nil); err != nil {
+				res.failf("setup-failed", "rollout set: %v", err)
+				return
+			}
+			cookie = "Cookie: " + RolloutCookieName + "=v\r\n"
+			synctest.Wait()
+			res.label("then:rollout")
+		}
 		f := w.front(r, "front:80")
 		desc := fmt.Sprintf("%+v", p)
 		finish := func() {
@@ -149,7 +199,7 @@ func c14Run(t *testing.T, p c14Plan) (res vfResult) {
 		body := c13Body(reqTotal, 1)
 		var chunks [][]byte
 		pauses := []int{0}
-		chunks = append(chunks, []byte(fmt.Sprintf("POST /upload HTTP/1.1\r\nHost: h.test\r\nContent-Length: %d\r\n\r\n", reqTotal)))
+		chunks = append(chunks, []byte(fmt.Sprintf("POST /upload HTTP/1.1\r\nHost: h.test\r\n%sContent-Length: %d\r\n\r\n", cookie, reqTotal)))
 		off := 0
 		lastChunkAt := time.Duration(0)
 		for i, c := range p.ReqChunks {
